@@ -19,11 +19,14 @@ Sync_d2x == {D(c) : c \in PartialFns(Names, TreesOf({F1, F1x, L1}, {"c"}, 1))} \
 All_d2x == {D(c) : c \in PartialFns(Names, TreesOf({F1, F1x, L1, U}, {"c"}, 1))} \cup {Nil, L1, U}
 Sync_spine == TreesOf({F1, F2, L1}, {"a"}, 3) \cup {Nil}
 All_spine == TreesOf({F1, F2, L1, U, Pb}, {"a"}, 3) \cup {Nil}
+\* two levels on a single spine of names (non-root directories, cheap enough for the quick tier)
+Sync_n2 == {D(c) : c \in PartialFns({"a"}, TreesOf({F1, F2}, {"c"}, 1))} \cup {Nil}
+All_n2 == {D(c) : c \in PartialFns({"a"}, TreesOf({F1, F2, U, Pb}, {"c"}, 1))} \cup {Nil}
 Sync_h1 == TreesOf({F1, F2}, Names, 1) \cup {Nil}
 All_h1 == TreesOf({F1, F2, U}, Names, 1) \cup {Nil}
 
 SyncTreesOf(s) == CASE s = "d1" -> Sync_d1 [] s = "d2" -> Sync_d2 [] s = "d2x" -> Sync_d2x
-                    [] s = "spine" -> Sync_spine [] s = "h1" -> Sync_h1
+                    [] s = "spine" -> Sync_spine [] s = "h1" -> Sync_h1 [] s = "n2" -> Sync_n2
 AllTreesOf(s) == CASE s = "d1" -> All_d1 [] s = "d2" -> All_d2 [] s = "d2x" -> All_d2x
-                   [] s = "spine" -> All_spine [] s = "h1" -> All_h1
+                   [] s = "spine" -> All_spine [] s = "h1" -> All_h1 [] s = "n2" -> All_n2
 ====
